@@ -392,3 +392,144 @@ def compare_outputs(ctx, ops, model_out, go_out, corr_name, max_report=20):
 def trunc(s, n=300):
     s = str(s)
     return s if len(s) <= n else s[:n] + f"...(+{len(s) - n})"
+
+
+# --------------------------------------------------------------------------- overlay harnesses (in-package access, no edit of /repo)
+
+def build_overlay_test(pkg_rel, files, scratch, name=None, tags="verif", race=False):
+    """Compile an in-package test binary for /repo/<pkg_rel> with add-only files injected by
+    `go test -c -overlay`.  `files` maps a file name (placed virtually inside the package
+    directory) to the real source path under /verif/overlay.  Returns (binary, error)."""
+    scratch = Path(scratch)
+    name = name or pkg_rel.replace("/", "_")
+    ov = {"Replace": {str(REPO / pkg_rel / fn): str(src) for fn, src in files.items()}}
+    ovp = scratch / f"{name}.overlay.json"
+    ovp.write_text(json.dumps(ov))
+    out = scratch / f"{name}.test"
+    cmd = ["go", "test", "-c", "-vet=off", "-overlay", str(ovp), "-tags", tags, "-o", str(out)]
+    if race:
+        cmd.append("-race")
+    cmd.append("./" + pkg_rel)
+    rc, so, se = sh(cmd, cwd=REPO, env=goenv(), timeout=1200)
+    if rc != 0 or not out.exists():
+        return None, so + se
+    return out, ""
+
+
+def run_overlay_test(binary, test_name, ops_lines, scratch, timeout=1800, extra_env=None):
+    """Run one Test function of an overlay test binary; ops go in through a file named by
+    VERIF_OPS, results come back through VERIF_OUT (one line per op)."""
+    scratch = Path(scratch)
+    opsf = scratch / f"{test_name}.ops"
+    outf = scratch / f"{test_name}.out"
+    opsf.write_text("\n".join(ops_lines) + "\n")
+    if outf.exists():
+        outf.unlink()
+    env = goenv()
+    env["VERIF_OPS"] = str(opsf)
+    env["VERIF_OUT"] = str(outf)
+    env.update(extra_env or {})
+    rc, so, se = sh([str(binary), "-test.run", f"^{test_name}$", "-test.count=1", "-test.timeout", f"{timeout}s"],
+                    cwd=scratch, env=env, timeout=timeout + 60)
+    res = []
+    if outf.exists():
+        res = outf.read_text().split("\n")
+        if res and res[-1] == "":
+            res.pop()
+    return rc, res, so + se
+
+
+# --------------------------------------------------------------------------- the standard check shape
+
+def sample_by_kind(ops, maxlen=400):
+    by = {}
+    for i, o in enumerate(ops):
+        if len(o[0]) < maxlen:
+            by.setdefault(o[1], []).append(i)
+    return [v[len(v) // 2] for v in by.values()]
+
+
+def standard_run(ctx, *, props, family, consts, go_runner, gen_ops, oracle, corr_name,
+                 trusted, assumptions, rule, model_args=(), model_timeout=1800, post=None):
+    """The common shape of a check (DESIGN.md 2.4).
+
+    props      -- 'Props/Cxx' (file with only the property theorems)
+    family     -- model family: coq/extract/Extract_<family>.v + ocaml/drv_<family>.ml
+    consts     -- names of the T-const specs this property depends on (tools/genconsts/spec/<Name>.json)
+    go_runner  -- f(ctx, lines) -> (list of output lines | None, error text)   [implementation side]
+    gen_ops    -- f(ctx) -> list of (op_line, kind, data)
+    oracle     -- f(ctx, ops, go_out) -> list of (op_line, kind, go_output, sig)  property evaluated on Go's own outputs;
+                  sig identifies the specific failure for known_findings.json
+    post       -- optional f(ctx, ops, model_out, go_out) for extra evidence
+    """
+    pid = ctx.pid
+    with Lock():
+        cres = run_genconsts()
+        thm = check_theorems(props)
+        try:
+            ref = build_refmodel(family)
+            ref_err = None
+        except RuntimeError as e:
+            ref, ref_err = None, str(e)
+    ops = gen_ops(ctx)
+    lines = [o[0] for o in ops]
+    go_out, goerr = go_runner(ctx, lines)
+    model_out = None
+    if ref:
+        rc, model_out, err = run_lines(ref, list(model_args), lines, timeout=model_timeout)
+        if rc != 0:
+            ref_err = f"model driver exit {rc}: {err[-500:]}"
+            model_out = None
+    mism = []
+    if go_out is not None and model_out is not None:
+        mism = compare_outputs(ctx, lines, model_out, go_out, corr_name)
+    bad = oracle(ctx, ops, go_out) if go_out is not None else []
+
+    for b in bad[:40]:
+        op, kind, out = b[0], b[1], b[2]
+        sig = b[3] if len(b) > 3 else f"{pid}:oracle:{kind}:{trunc(op, 80)}"
+        ctx.violation(sig, f"implementation breaks the property ({kind}): {trunc(op, 160)} -> {trunc(out, 160)}",
+                      {"op": op, "kind": kind, "go": out})
+    if not ctx.violations:
+        cerr = [f"{n}: {cres[n]}" for n in consts if cres.get(n)]
+        if cerr:
+            ctx.violation(f"{pid}:tconst", "translator T-const failed: " + "; ".join(cerr),
+                          {"theorem": f"all of coq/theories/{props}.v (constants missing)", "error": cerr}, no_input=True)
+        elif not thm["ok"]:
+            ctx.violation(f"{pid}:theorem", f"theorem no longer checks: {thm['failing_at']}",
+                          {"theorem_file": thm["props_file"], "failing_at": thm["failing_at"], "log": thm["log_tail"]}, no_input=True)
+        if go_out is None:
+            ctx.violation(f"{pid}:go-build", "implementation harness does not build/run: " + trunc(goerr, 600), {"error": goerr}, no_input=True)
+        if ref_err:
+            ctx.violation(f"{pid}:model-build", "reference model does not build/run: " + trunc(ref_err, 600), {"error": ref_err}, no_input=True)
+        for i, op, m, g in mism[:40]:
+            ctx.violation(f"{pid}:corr:{trunc(op, 80)}",
+                          f"{corr_name}: model and implementation differ on {trunc(op, 120)}: model={trunc(m, 100)} go={trunc(g, 100)}",
+                          {"correspondence": corr_name, "op": op, "model": m, "go": g}, no_input=True)
+
+    kinds, verdicts = {}, {}
+    for o in ops:
+        kinds[o[1]] = kinds.get(o[1], 0) + 1
+    for o in (go_out or []):
+        v = o.split(" ")[0]
+        verdicts[v] = verdicts.get(v, 0) + 1
+    ctx.coverage.update({
+        "obligations": thm["obligations"], "discharged": thm["discharged"],
+        "checker_cmd": f"make -f Makefile.coq theories/{props}.vo (coqc 8.16.1, full .vo build, in /verif/coq)",
+        "trusted_base": ["Coq 8.16.1 kernel (coqc; vm_compute only in Examples / finite sweeps)",
+                         "extraction with ExtrOcamlBasic only (no Extract Constant); OCaml 4.13.1; ocaml/conv.ml + ocaml/drv_%s.ml" % family]
+                        + list(trusted)
+                        + ["axioms: " + (", ".join(thm["axioms"]) if thm["axioms"] else "none (every theorem closed under the global context)")],
+        "theorems": thm["statements"], "assumptions_per_theorem": thm["assumptions"],
+        "evaluations": len(ops), "distinct_nontrivial": len(set(lines)),
+        "rule": rule, "op_kinds": kinds, "go_verdicts": verdicts,
+        "correspondence": corr_name, "correspondence_mismatches": len(mism), "oracle_failures": len(bad),
+        "samples": [{"op": trunc(lines[i], 160), "go": trunc(go_out[i], 160) if go_out and i < len(go_out) else None,
+                     "model": trunc(model_out[i], 160) if model_out and i < len(model_out) else None}
+                    for i in sample_by_kind(ops)] or [{"note": "no ops"}],
+        "constants": {n: ("regenerated from source this run" if not cres.get(n) else "FAILED") for n in consts},
+    })
+    ctx.assumptions += list(assumptions)
+    if post:
+        post(ctx, ops, model_out, go_out)
+    return thm, mism, bad
